@@ -311,3 +311,9 @@ def check(prog, run):
     int_ref = rx.cat(rx.opt(rx.sym(frozenset({"-"}))), rx.alt(rx.sym(frozenset({"0"})), rx.cat(rx.sym(D - {"0"}), rx.star(rx.sym(D)))))
     regexrule.check(prog, run, r, "py_gql.utilities.ast_node_from_value", "_INT_RE", int_ref, "an integer literal",
                     "the printed default is read back as a different value")
+
+    # ---- P8 nothing on the printing path remembers an earlier answer
+    from .. import nomemo
+    nomemo.check(prog, run, "P8", [call], "ASTSchemaPrinter.__call__",
+                 "values that compare equal across types (True == 1 == 1.0) or objects changed in place since would be rendered from "
+                 "an earlier call, so the text depends on what was printed before", 30)
